@@ -304,6 +304,7 @@ def extract_inputs(trace):
     """named harness inputs of a counterexample: nd_<name> (IN) and first value of in_*/g_* arrays"""
     vals = {}
     shown = {}
+    elems = {}
     for s in trace:
         if s.get('stepType') != 'assignment':
             continue
@@ -320,7 +321,57 @@ def extract_inputs(trace):
             if h is not None:
                 vals[lhs] = h
                 shown[lhs] = '[%d elements]' % len(v['elements'])
+        else:
+            # V_FILL(name): whole-array nondeterministic assignment, reported element by element
+            me = re.match(r'^(in_\w+)\[(\d+)l?\]$', lhs)
+            if me:
+                h = value_hex(v)
+                if h is not None:
+                    elems.setdefault(me.group(1), {}).setdefault(int(me.group(2)), h)
+    for name, el in elems.items():
+        if name in vals or not el:
+            continue
+        w = len(next(iter(el.values())))
+        vals[name] = ''.join(el.get(i, '0' * w) for i in range(max(el) + 1))
+        shown[name] = '[' + ' '.join(el.get(i, '?') for i in range(max(el) + 1)) + ']'
     return vals, shown
+
+
+_NATIVE_LIB = {}
+
+
+def native_support_lib():
+    """everything else of /repo's C libraries (current working tree), compiled once per run into a static archive:
+       functions the unit's own sources call but do not define are taken from it at link time (the unit's
+       sources and the harness stand-ins come first on the link line and win)"""
+    if 'path' in _NATIVE_LIB:
+        return _NATIVE_LIB['path']
+    import atexit
+    d = tempfile.mkdtemp(prefix='vnative.', dir=TMPROOT)
+    atexit.register(lambda: shutil.rmtree(d, ignore_errors=True))
+    files = []
+    for sub in ('mptcore', 'mptplot', 'mptio'):
+        for root, _dirs, fns in os.walk(os.path.join(REPO, sub)):
+            files += [os.path.join(root, f) for f in fns if f.endswith('.c')]
+    inc = ['-I' + os.path.join(REPO, x) for x in ('', 'mptcore', 'mptplot', 'mptio', 'mptloader')]
+    procs = []
+    objs = []
+    for i, f in enumerate(sorted(files)):
+        o = os.path.join(d, '%04d.o' % i)
+        procs.append((o, subprocess.Popen(['gcc', '-c', '-O0', '-g', '-w'] + inc + [f, '-o', o],
+                                          stdout=subprocess.DEVNULL, stderr=subprocess.DEVNULL)))
+        if len(procs) >= 16:
+            o0, p0 = procs.pop(0)
+            if p0.wait() == 0:
+                objs.append(o0)
+    for o0, p0 in procs:
+        if p0.wait() == 0:
+            objs.append(o0)
+    lib = os.path.join(d, 'libmptall.a')
+    if objs:
+        subprocess.run(['ar', 'rcs', lib] + objs, stdout=subprocess.DEVNULL, stderr=subprocess.DEVNULL)
+    _NATIVE_LIB['path'] = lib if os.path.exists(lib) else None
+    return _NATIVE_LIB['path']
 
 
 def native_replay(pid, unit, inputs, outdir, tag, tier):
@@ -338,7 +389,11 @@ def native_replay(pid, unit, inputs, outdir, tag, tier):
         defs = ['-D' + d for d in (tier_val(unit, 'defines', tier, []) or [])]
         cmd = (['gcc', '-g', '-O0', '-w', '-fsanitize=address,undefined', '-fno-sanitize-recover=undefined',
                 '-DVERIF_NATIVE', '-DMPT_VERIF'] + defs + include_flags(pid, []) +
-               [os.path.join(cdir, unit['harness'])] + srcs + [os.path.join(VERIF, 'include', 'native_rt.c'), '-o', exe, '-lm'])
+               [os.path.join(cdir, unit['harness'])] + srcs + [os.path.join(VERIF, 'include', 'native_rt.c'), '-o', exe])
+        lib = native_support_lib()
+        if lib:
+            cmd += [lib, '-Wl,--allow-multiple-definition']
+        cmd += ['-lm', '-ldl']
         rc, out, _ = run(cmd, scratch, 300)
         if rc != 0:
             return 'build-failed', out[-3000:]
@@ -642,7 +697,7 @@ def main(argv):
             results.append((futs[fu], fu.result()))
     results.sort(key=lambda t: [u['name'] for u in units].index(t[0]['name']))
 
-    outdir = os.path.join(VERIF, 'out', 'replay', pid)
+    outdir = os.path.join(os.environ.get('VERIF_OUT', os.path.join(VERIF, 'out')), 'replay', pid)
     if not a.unit:
         shutil.rmtree(outdir, ignore_errors=True)
     os.makedirs(outdir, exist_ok=True)
@@ -770,7 +825,8 @@ def write_evidence(pid, spec, tier, seed, results, known_hits, violations, incon
         cov['explanation'] = spec.get('explanation', '')
     ev = {
         'property_id': pid, 'tier': tier, 'seed': seed, 'level': level, 'coverage': cov,
-        'assumptions': spec.get('assumptions', []) + ['in-source: ' + s for s in scan_assumptions(pid)],
+        'assumptions': spec.get('assumptions', []) + ['in-source: ' + s for s in scan_assumptions(pid)] +
+                       ['unit %s: %s' % (u['name'], st) for u, _ in results for st in u.get('stubs', [])],
         'wall_s': round(wall, 2), 'violations': len(violations),
         'inconclusive_units': [u['name'] for u, _ in inconcl],
     }
